@@ -104,6 +104,7 @@ def check_response(m, app, src, sport, v6):
 
 
 ORACLE = {}      # request frame -> (payload, src, dst, sport, dport, tcp, v6)
+LATER = {}       # later data segment of a flow bound to the STUN responder -> (payload, src, dst, sport, dport, v6)
 
 
 class Batch:
@@ -125,6 +126,19 @@ class Batch:
             self.udp.append(f)
         ORACLE[f] = (p, s, d, sport, dport, tcp, v6)
         return f
+
+    def add_bound(self, later, v6=False, dport=3478):
+        """one TCP flow: a long magic-cookie Binding Request (identified, answered: the flow is bound to the STUN
+        responder), then the messages of [later], one per segment; each of them reaches the responder whatever its
+        first bytes are, so it is judged as a STUN message on its own"""
+        s, d = gens.addr_pair(v6)
+        self.sport += 1
+        first = msg(magic=True, attrs=LONG, tid=bytes([self.sport & 0xff]) * 16)
+        fr = gens.handshake(self.cfg.key, s, d, self.sport, dport, [first] + list(later))
+        self.tcp.append(fr)
+        ORACLE[fr[1]] = (first, s, d, self.sport, dport, True, v6)
+        for f, p in zip(fr[2:], later):
+            LATER[f] = (p, s, d, self.sport, dport, v6)
 
     def scripts(self, per=120):
         for i in range(0, len(self.udp), per):
@@ -254,6 +268,21 @@ def generate(tier, rng):
             b.add(msg(magic=True, attrs=a, tid=rnd_tid(rng)), tcp=k % 2 == 0)
             b.add(msg(magic=False, attrs=a, tid=rnd_tid(rng)))
     yield from b.scripts()
+    # G. flows bound to the STUN responder: every message type bit, class and method on later segments
+    b = Batch("bound-flow-later-segments")
+    types = sorted(set([1 << k for k in range(14)] + [(1 << k) | 1 for k in range(14)] + [0x0001, 0x0011, 0x0101, 0x0111, 0x0002, 0x0003,
+                        0x3e01, 0x3eef, 0x3fff, 0x0110, 0x0100, 0x0010] + [rng.randrange(0x4000) for _ in range(60 if thorough else 20)]))
+    k = 0
+    for i in range(0, len(types), 3):
+        later = []
+        for ty in types[i:i + 3]:
+            k += 1
+            m = bytearray(msg(tid=rnd_tid(rng), magic=k % 2 == 0, attrs=(b"", attr(3, b"\0\0\0\2"), LONG)[k % 3]))
+            m[0:2] = struct.pack("!H", ty)
+            later.append(bytes(m))
+        later.append(msg(tid=rnd_tid(rng), attrs=attr(0x8022, b"x" * (k % 7)) + attr(3, b"\0\0\0\2")))
+        b.add_bound(later, v6=k % 2 == 1, dport=(3478, 65535)[k % 2])
+    yield from b.scripts()
     # F. configurations
     for cfg in (Cfg(self_ips=[gens.SELF4, gens.SELF6], key=KEY), Cfg(key=KEY, logger="logfmt", level=2)):
         b = Batch("configs", cfg)
@@ -299,18 +328,23 @@ def project(script, i, o):
 def history_monitor(script, outs):
     msgs = []
     for i, (f, o) in enumerate(zip(script.frames, outs)):
-        if f not in ORACLE:
+        if f not in ORACLE and f not in LATER:
             continue
-        p, s, d, sp, dp, tcp, v6 = ORACLE[f]
+        later = f in LATER
+        if later:
+            p, s, d, sp, dp, v6 = LATER[f]
+            tcp = True
+        else:
+            p, s, d, sp, dp, tcp, v6 = ORACLE[f]
         m = parse(p)
         if m is None:
             continue
         a = app_payload(o)
         answered = a[0] == "R" and len(a) == 5 and len(a[2]) > 0
         if m["cls"] == 0 and m["method"] == 1:
-            if not published(p, tcp):
+            if not later and not published(p, tcp):
                 continue
-            if shadowed(p, tcp):
+            if not later and shadowed(p, tcp):
                 continue                  # known class: judged by the strict extracted monitor only
             if not answered:
                 msgs.append((i, "python oracle: binding request not answered"))
